@@ -453,16 +453,19 @@ func (p *Pipe) Pending() int { return len(p.in) }
 
 // Close is called by the library.
 func (p *Pipe) Close() error {
+	first := false
 	p.closeOnce.Do(func() {
+		first = true
 		p.mu.Lock()
 		p.byLib = true
 		p.mu.Unlock()
 		close(p.closed)
 		p.net.Rec.Emit("pclose", "o", p.Name)
-		if p.peer != nil {
-			p.peer.dropFromPeer()
-		}
 	})
+	// outside the Once: both ends of a link may be closed at the same moment
+	if first && p.peer != nil {
+		p.peer.dropFromPeer()
+	}
 	return nil
 }
 
@@ -475,12 +478,14 @@ func (p *Pipe) dropFromPeer() {
 
 // Drop closes the connection from the peer's side.
 func (p *Pipe) Drop() {
+	first := false
 	p.closeOnce.Do(func() {
+		first = true
 		close(p.closed)
-		if p.peer != nil {
-			p.peer.dropFromPeer()
-		}
 	})
+	if first && p.peer != nil {
+		p.peer.dropFromPeer()
+	}
 }
 
 // IsClosed reports whether the pipe was closed (by either side).
